@@ -1,23 +1,12 @@
 import Driver.Ops.C07
 import LentilVerif.Model.PropSeg
+import LentilVerif.Model.PlaneTilt
 /-! Driver operations for C03: run a chain of planes (as `c07.run`, complex doubles) and propagate the result with the
 model of `propagate_dft` (tilt-free fields, no output mask); report the propagated `field` and `intensity`. -/
 open Lean Lentil Drv
 namespace Ops.C03
 
-@[instance_reducible] def realLikeFloat : RealLike Float where
-  ofInt := Float.ofInt
-  twoPi := Ops.C07.twoPi
-  sqrt := Float.sqrt
-  abs := Float.abs
-
-@[instance_reducible] def cxLikeCF : CxLike CF Float where
-  expI t := ⟨Float.cos t, Float.sin t⟩
-  ofReal x := ⟨x, 0.0⟩
-  conj z := ⟨z.re, -z.im⟩
-  divInt z n := ⟨z.re / Float.ofInt n, z.im / Float.ofInt n⟩
-
-attribute [local instance] realLikeFloat cxLikeCF
+attribute [local instance] Ops.C07.realLikeFloat Ops.C07.cxLikeCF
 
 def floats2 (j : Json) (k : String) : R (Float × Float) := do
   let a ← getFloats j k
@@ -26,8 +15,66 @@ def ints2 (j : Json) (k : String) : R (Int × Int) := do
   let a ← getInts j k
   pure (a[0]!, a[1]!)
 
+/-- `[x, y]` (bit patterns) → `lentil.Tilt(x=x, y=y)` -/
+def tiltOf (j : Json) : R (TiltEl Float) := do
+  let a ← j.getArr?
+  pure (.angular (← floatOfJson a[0]!) (← floatOfJson a[1]!))
+
+def tiltJ (e : TiltEl Float) : Json :=
+  match e with
+  | .angular x y => Json.arr #[floatToJson x, floatToJson y]
+  | .dispersive1 a b c d => Json.arr #[floatToJson a, floatToJson b, floatToJson c, floatToJson d]
+
+/-- `np.fix`: truncation toward zero, with the remainder -/
+def fixSplit (x : Float) : Int × Float :=
+  let t := if x ≥ 0.0 then Float.floor x else Float.ceil x
+  (t.toInt64.toInt, x - t)
+
+/-- a chain of Pupil/Plane and Tilt elements on a fresh wavefront (optionally `Wavefront(tilt=…)`), tilt lists carried per
+field; then `propagate_dft` (builderB's `propagateDft`: per-field shifts from the tilt lists, generated window block) -/
+def runTiltChain (j : Json) : R Json := do
+  let N := Ops.C07.numCF
+  let wl ← getFloat j "wavelength"
+  let t0 : List (TiltEl Float) ← match optVal j "wtilt" with
+    | none => pure []
+    | some v => if v.isNull then pure [] else do pure [← tiltOf v]
+  let mut data : List (TFld CF Float) := [({ arr := { s0 := 1, s1 := 1, get := fun _ _ => N.one }, o0 := 0, o1 := 0 }, t0)]
+  let mut focal : Float := 0.0
+  for ej in ← getArr j "elements" do
+    let kind ← getStr ej "kind"
+    if kind == "tilt" then
+      let e : TiltEl Float := .angular (← getFloat ej "x") (← getFloat ej "y")
+      data := tiltMultiplyT (N.ph wl) N.one 0.0 e data
+    else
+      let pr ← Ops.C07.planeOf N ej
+      let st : List (List (TiltEl Float)) ← match optVal ej "seg_tilts" with
+        | none => pure []
+        | some v => do (← v.getArr?).toList.mapM fun l => do (← l.getArr?).toList.mapM tiltOf
+      data := planeMultiplyT (N.ph wl) pr.p st data
+      if pr.pupil then focal := pr.fl
+  let fieldsJ := Json.arr (data.map fun ft =>
+    (Ops.C07.fldJ N ft.1).mergeObj (Json.mkObj [("tilts", Json.arr (ft.2.map tiltJ).toArray)])).toArray
+  match optVal j "prop" with
+  | none => pure (okJ [("fields", fieldsJ)])
+  | some pj => do
+    let dx ← floats2 pj "dx"; let du ← floats2 pj "du"
+    let os ← getInt pj "os"
+    let shape ← ints2 pj "shape"; let pshape ← ints2 pj "prop_shape"
+    let al := dftAlpha dx.1 dx.2 du.1 du.2 wl focal os
+    let tfs : List (TField CF Float) := data.map fun ft =>
+      let sh := fieldShift ft.2 focal wl du.1 du.2 os true
+      let a := fixSplit sh.1; let b := fixSplit sh.2
+      { fld := ft.1, fix0 := a.1, fix1 := b.1, sub0 := a.2, sub1 := b.2 }
+    let out := propagateDft tfs al.1 al.2 shape.1 shape.2 pshape.1 pshape.2 os none
+    let S0 := shape.1 * os; let S1 := shape.2 * os
+    pure (okJ [("fields", fieldsJ), ("nout", intJ out.length),
+               ("extents", Json.arr (out.map fun g => extToJson g.extent).toArray),
+               ("field", Ops.C07.arrJ N (wfField N.one S0 S1 out)),
+               ("intensity", match wfIntensity N.one N.nsq S0 S1 out with | some a => Ops.C07.arrJ N a | none => Json.str "ValueError")])
+
 def handle (op : String) (j : Json) : Option (R Json) :=
   match op with
+  | "c03.chain" => some (runTiltChain j)
   | "c03.run" => some do
       let N := Ops.C07.numCF
       match ← Ops.C07.runChain N j with
